@@ -854,6 +854,16 @@ func genC19(t *rapid.T) c19Case {
 			}
 			s.Methods = append(s.Methods, m)
 		}
+		if len(s.Methods) > 0 && rapid.IntRange(0, 3).Draw(t, "coincide") == 0 {
+			// a method named like (a part of) what precedes it in its fully-qualified name: "Ping.Ping", "EchoService.Echo",
+			// a package component
+			cands := []string{s.Name, s.Name[:1], s.Name[:len(s.Name)-1]}
+			if c.Package != "" {
+				parts := strings.Split(c.Package, ".")
+				cands = append(cands, parts[len(parts)-1], parts[0])
+			}
+			s.Methods[rapid.IntRange(0, len(s.Methods)-1).Draw(t, "coincideat")].Name = rapid.SampledFrom(cands).Draw(t, "coincidename")
+		}
 		c.Services = append(c.Services, s)
 	}
 	c.AlsoDep = rapid.SampledFrom([]string{"", "", "first", "last"}).Draw(t, "alsodep")
@@ -880,7 +890,7 @@ func genC19(t *rapid.T) c19Case {
 
 func init() { registerReplay("C19", propC19) }
 
-const c19Rule = "rapid-generated FileDescriptorProtos (package empty/nested, four go_package forms, 0..3 services, 0..8 methods of the four kinds in any interleaving, snake_case/CamelCase/digit/underscore names, local/imported/well-known request and response types with dependency files) x parameter lists (legacy_stubs, legacy_desc_names, debug, paths, module, import_path, M mappings, every accepted boolean spelling, and the documented invalid forms) fed as CodeGeneratorRequest to the plugin binary built from the working tree; " +
+const c19Rule = "rapid-generated FileDescriptorProtos (package empty/nested, four go_package forms, 0..3 services, 0..8 methods of the four kinds in any interleaving, snake_case/CamelCase/digit/underscore names, methods named like their service, a prefix of it or a package component, local/imported/well-known request and response types with dependency files) x parameter lists (legacy_stubs, legacy_desc_names, debug, paths, module, import_path, M mappings, every accepted boolean spelling, and the documented invalid forms) fed as CodeGeneratorRequest to the plugin binary built from the working tree; " +
 	"oracle: error iff the parameters are invalid by the documented grammar; one *.pb.grpchan.go iff the file has services; output parses (go/parser) and is a go/format fixed point; AST model: RegisterHandler<Svc> calls reg.RegisterService(&<desc var per legacy_desc_names>, srv); with legacy_stubs every method has exactly one stub calling Invoke / NewStream with path /<full service>/<method>, &<desc>.Streams[rank among the service's streaming methods], SendMsg+CloseSend iff server-streaming only; without legacy_stubs no client types; placement model: package clause and output path are those of the Go package holding the file's own service descriptions (M mapping for the file > import_path > go_package; module prefix trimmed; paths=source_relative), imported message packages are imported under their M mapping, the file never imports itself; " +
 	"also generated since the seeded rounds: M mapping of the generated file with and without import_path (drawn deliberately), the messages-only dependency file named for generation before/after the file under test, dependency packages whose Go name collides with another import (grpc, context, emptypb, grpchan) or with the file's own package; the emitted file is type-checked (go/types) next to companion declarations written the way protoc-gen-go/-go-grpc write them; " +
 	"plus byte-exact regeneration of grpchantesting/test.pb.grpchan.go from the compiled-in descriptors; non-trivial = streaming methods interleaved with unary ones, >=2 services, invalid parameters, or regeneration; distinct by case hash"
